@@ -78,6 +78,8 @@ pub enum InAmt {
     TwoPow127,
     TwoPow128,
     TwoPow255,
+    /// 2^bit + low: a small, plausible amount under a stray high bit (bit in 127..=255)
+    HighBitPlus { bit: u8, low: u16 },
 }
 
 #[derive(Serialize, Deserialize, Clone, Debug, PartialEq, Eq, Hash)]
